@@ -3,6 +3,7 @@ package engines
 import (
 	"encoding/hex"
 	"fmt"
+	"math"
 	"math/big"
 	"sort"
 	"strings"
@@ -160,7 +161,8 @@ func randTree(r *hx.Rng, depth int, nested bool) *mnode {
 type anteShape struct {
 	tree                                         string
 	ext                                          []int
-	nc, sigs, si, to                             int
+	nc, sigs, si                                 int
+	to                                           uint64
 	payer, granter, memo                         bool
 	fee                                          string
 	gl                                           uint64
@@ -288,9 +290,9 @@ func TestEngineAnte(t *testing.T) {
 			for k := 0; k < np; k++ {
 				switch r.Intn(20) {
 				case 0:
-					a.memo = "hello"
+					a.memo = hx.Pick(r, []string{"hello", " ", "\n", "\t ", "\u00a0", "\u2003", strings.Repeat(" ", 256), "x"}) // blank is not empty
 				case 1:
-					a.timeoutHeight = uint64(1 + r.Intn(1000000))
+					a.timeoutHeight = hx.Pick(r, []uint64{uint64(1 + r.Intn(1000000)), 1, 1 << 63, 1<<63 + 5, math.MaxInt64, math.MaxUint64}) // any non-zero value, also one that is negative as int64
 				case 2:
 					fa := sdk.NewCoins(sdk.NewInt64Coin(c.evmDenom, int64(1+r.Intn(1000))))
 					a.feeAmount = &fa
@@ -478,7 +480,7 @@ func TestEngineAnte(t *testing.T) {
 		sh.payer = ptx.AuthInfo.Fee.Payer != ""
 		sh.granter = ptx.AuthInfo.Fee.Granter != ""
 		sh.memo = ptx.Body.Memo != ""
-		sh.to = int(ptx.Body.TimeoutHeight)
+		sh.to = ptx.Body.TimeoutHeight
 		fparts := []string{}
 		for _, co := range ptx.AuthInfo.Fee.Amount {
 			fparts = append(fparts, fmt.Sprintf("%d:%s", f.denomID(co.Denom), co.Amount.String()))
